@@ -764,13 +764,13 @@ def rh_lapse_cases(draw):
 def suites(tier):
     return [
         Suite("exact", check_exact, strategy=exact_cases(),
-              examples={"quick": 1000, "thorough": 15000}),
+              examples={"quick": 1000, "thorough": 8000}),
         Suite("float", check_float, strategy=float_cases(),
-              examples={"quick": 1200, "thorough": 20000}),
+              examples={"quick": 1200, "thorough": 10000}),
         Suite("saturation", check_saturation, strategy=saturation_cases(),
-              examples={"quick": 500, "thorough": 8000}),
+              examples={"quick": 500, "thorough": 4000}),
         Suite("reject", check_reject, strategy=reject_cases(),
-              examples={"quick": 300, "thorough": 3000}),
+              examples={"quick": 300, "thorough": 1500}),
         Suite("rh-lapse", check_rh_lapse, strategy=rh_lapse_cases(),
-              examples={"quick": 1200, "thorough": 20000}),
+              examples={"quick": 1200, "thorough": 10000}),
     ]
